@@ -119,7 +119,7 @@ def run_case(ctx, case_seed):
                     d0 = pf['inputs'][0]
                     pf['body'] = list(pf['body']) + [{'op': 'in', 'decl': d0['name'], 'args': [{'lit': 'never'}] * d0['nparams'],
                                                       'kwargs': {'extra': {'lit': 'never-recorded'}}, 'var': 'zz'}]
-                    if pf['body'][-2]['op'] in ('return', 'raise'):
+                    if len(pf['body']) >= 2 and pf['body'][-2]['op'] in ('return', 'raise'):
                         pf['body'][-2], pf['body'][-1] = pf['body'][-1], pf['body'][-2]
                     try:
                         rec.play(saves[0][2], playback_function_for(Built(pf, rec, World(1, poison=True), cls_name=live.cls.__name__)))
